@@ -357,8 +357,9 @@ func ownerOf(addr ssa.Value, cts map[*types.Named]bool) *types.Named {
 func rulesC14(c *Ctx) {
 	p := c.P
 	ruleC14Thread(c)
-	ruleC14SeekAbsolute(c)
+	ruleSeekAbsolute(c, "C14.SEEKABSOLUTE")
 	ruleC14DirCompare(c)
+	ruleIdCursorFiltered(c, "C14.IDCURSOR")
 	cts := c.cursorTypes()
 	c.Note(fmt.Sprintf("cursor types found: %d", len(cts)))
 	kp := newKeyProv(c)
@@ -1195,7 +1196,7 @@ func ruleC14Thread(c *Ctx) {
 // before — also when it had run off the end.  A Seek that delegates to an underlying cursor's Seek does so
 // on every path, except where it has found that the underlying cursor cannot seek (the failed type
 // assertion): no early return on the wrapper's own (in)validity comes first.
-func ruleC14SeekAbsolute(c *Ctx) {
+func ruleSeekAbsolute(c *Ctx, rule string) {
 	p := c.P
 	n := 0
 	for _, fn := range c.prodFuncs("ast", "boltz", "objectz") {
@@ -1259,10 +1260,10 @@ func ruleC14SeekAbsolute(c *Ctx) {
 			}
 			return false
 		})
-		c.Check(ok, "C14.SEEKABSOLUTE", FnName(fn), p.Pos(fn.Pos()), "the underlying cursor is re-seeked on every path (except the not-seekable fallback)", "a return is reachable without seeking the underlying cursor although it can seek (for instance an early return while the cursor is exhausted): after running off the end, Seek(v) leaves the cursor invalid instead of on the first element >= v")
+		c.Check(ok, rule, FnName(fn), p.Pos(fn.Pos()), "the underlying cursor is re-seeked on every path (except the not-seekable fallback)", "a return is reachable without seeking the underlying cursor although it can seek (for instance an early return while the cursor is exhausted): after running off the end, Seek(v) leaves the cursor invalid instead of on the first element >= v")
 	}
 	c.CallSites(n)
-	c.Floor("C14.SEEKABSOLUTE", 2)
+	c.Floor(rule, 2)
 }
 
 // ruleC14DirCompare: where a direction is in scope (a parameter or captured variable named forward), a
